@@ -145,15 +145,17 @@ def field_uses(linker, fname, pname, depth=0, seen=None):
             flds |= pfields(n)
         return {"text": g.get("text"), "fields": sorted(flds), "taken": g.get("taken")}
 
+    # An arm that panics (`_ => panic!("Not supported")`) rejects the input: nothing is rendered for it at all, so it is not a
+    # condition under which a clause is silently left out.  Only return / continue / break leave a clause behind.
     def escapes_S(x):
         items = [y for y in T.flat(x) if y != ("seq", [])]
-        return bool(items) and (items[-1][0] == "diverge" or (items[-1][0] == "ctl" and items[-1][1] in ("ret", "continue", "break")))
+        return bool(items) and (items[-1][0] == "ctl" and items[-1][1] in ("ret", "continue", "break"))
 
     def escapes_E(x):
         if x[0] == "seq":
             items = [y for y in x[1] if y != ("seq", [])]
             return bool(items) and escapes_E(items[-1])
-        return x[0] in ("ret", "continue", "break", "diverge")
+        return x[0] in ("ret", "continue", "break")
 
     def after_escape(x, guards, esc):
         """guards that hold for what follows an `if c { ..; return }`: the negation of c (it depends on the same fields)"""
